@@ -268,8 +268,12 @@ func TestLong_StopWaitsForASlowFunction(t *testing.T) {
 	var once sync.Once
 	fn := func(time.Duration) {
 		executing.Add(1)
-		once.Do(func() { close(entered) })
-		time.Sleep(d)
+		// only the first call is slow: after Stop's cancellation the runner may still pick a due tick
+		// over the cancellation a few times (see the scripts engine), which must not multiply the wait
+		once.Do(func() {
+			close(entered)
+			time.Sleep(d)
+		})
 		executing.Add(-1)
 	}
 	r, err := raterun.New(fn, []raterun.Schedule{{StartDelay: 0, Frequency: 5 * time.Millisecond}})
